@@ -114,7 +114,7 @@ U.fn('token_stream.rs', 'TokenStream::take_error', requires=['old(self).wf()'],
               C('old(self).has_error() ==> ret.is_some() && eco_view(&ret.unwrap()).len() > 0', 'C02', name='parked message is returned and non-empty')])
 
 # ----------------------------------------------------------------------------- lexer.rs
-U.prepend('lexer.rs', 'broadcast use {ax_pat_char, ax_pat_str, ax_pat_fn, ax_pat_fnref, ax_yes_fn, ax_no_fn, ax_yes_fnref, ax_no_fnref, ax_at_str, ax_at_fn, ax_u8len, ax_str_bytes, ax_msg_str, ax_str_inj};')
+U.prepend('lexer.rs', 'broadcast use {ax_pat_char, ax_pat_str, ax_pat_fn, ax_pat_fnref, ax_yes_fn, ax_no_fn, ax_yes_fnref, ax_no_fnref, ax_at_str, ax_at_fn, ax_u8len, ax_str_bytes, ax_msg_str, ax_str_inj, ax_spec_bytes};')
 U.append('lexer.rs', '''
 impl<'a> Lexer<'a> {
     pub closed spec fn chars(&self) -> Seq<char> { sc_src(&self.s) }
@@ -278,7 +278,7 @@ U.fn('preprocessor.rs', 'PreProcessor::eat_until_else_or_endif', requires=['old(
      prologue='proof { self.token_stream.lemma_len(); }')
 
 # ----------------------------------------------------------------------------- parser.rs
-U.prepend('parser.rs', 'broadcast use {ax_msg_str, ax_msg_eco, ax_msg_string, ax_str_bytes};')
+U.prepend('parser.rs', 'broadcast use {ax_msg_str, ax_msg_eco, ax_msg_string, ax_str_bytes, ax_spec_bytes};')
 U.append('parser.rs', '''
 /// C02: every recorded syntax error has a non-empty message and a range inside the text
 pub open spec fn err_ok<T: TokenStream>(e: SyntaxError, ts: &T) -> bool {
